@@ -29,8 +29,11 @@ RULE = ('unimolecular rules from 30 hand-written edit templates (incl. non-commu
         'accept/reject decision was compared with the balance; distinct by '
         '(rule text, molecule).')
 ASSUMPTIONS = [
-    'unimolecular rules; modify atomtype, reactant groups / duplicates, '
-    'constraints{} and formal-charge edits are outside the statement',
+    'unimolecular rules; reactant groups / duplicates and constraints{} are '
+    'outside the statement; WHETHER a rule with formal-charge edits is '
+    'accepted is not judged (the balance clause speaks of bond and radical '
+    'edits), what an accepted one does is; modify atomtype is refused by '
+    'the reader as not supported (NotImplementedError) for every new type',
     'embeddings and molecule facts come from the reference matcher validated '
     'by C08; networkx decides graph isomorphism',
 ]
@@ -38,7 +41,8 @@ CONFIG = {
     'shards': {'quick': 16, 'thorough': 16},
     'min_nontrivial': {'quick': 4000, 'thorough': 40000},
     'required_counters': ['product_sets_compared', 'unbalanced_rules_decided',
-                          'balanced_rules_read'],
+                          'balanced_rules_read',
+                          'charge_edit_product_sets_compared'],
 }
 ANCHORS = [
     'pgradd.RINGParser.ReactionQueryRead:ReactionQueryReader.Read',
@@ -55,6 +59,8 @@ ANCHORS = [
     'pgradd.RDkitWrapper.ReactionQuery:RadicalIncrease.__call__',
     'pgradd.RDkitWrapper.ReactionQuery:RadicalDecrease.__call__',
     'pgradd.RDkitWrapper.ReactionQuery:AtomTypeModify.__call__',
+    'pgradd.RDkitWrapper.ReactionQuery:ChargeIncrease.__call__',
+    'pgradd.RDkitWrapper.ReactionQuery:ChargeDecrease.__call__',
 ]
 EXTRA = ['C1CC1', 'C1CCC1', 'CC1CC1', 'C1CO1', 'C=CC', 'CC=CC', 'C#CC',
          '[CH2]C[CH2]', '[CH2]CO', '[CH2]CC', 'C[CH]C', '[CH2][CH2]',
@@ -83,6 +89,23 @@ def mol_pool(tier):
     return _pool[tier]
 
 
+IONS = ['[CH3+]', '[CH3-]', 'C[CH2+]', 'C[CH2-]', 'C[O-]', '[OH-]', 'CC[O-]',
+        'C[OH2+]', '[CH2+]C[CH2]', '[CH2+]CO', '[O-]CC[O-]', 'C[CH+]C',
+        'C[O+](C)C', '[CH2-]C=C', 'C[CH-]O', '[O-]C[CH2]', 'CC[CH2+]',
+        '[O]C[CH2+]', '[CH2]C[O-]', 'C[O+]', '[CH2+][CH2-]']
+
+
+def charged_pool():
+    if 'ions' not in _pool:
+        out = []
+        for s in IONS:
+            m = Chem.MolFromSmiles(s)
+            if m is not None:
+                out.append((Chem.MolToSmiles(m), m, R.Facts(Chem.AddHs(m))))
+        _pool['ions'] = out
+    return _pool['ions']
+
+
 def element_counts(g):
     return collections.Counter(d['z'] for _, d in g.nodes(data=True))
 
@@ -95,7 +118,16 @@ def check_rule(ctx, ast, rng):
     case = {'rule': text, 'template': ast['desc'], 'kind': ast['kind']}
     o = observe(Read, text)
     ctx.evals()
-    if not balanced:
+    charge = X.has_charge_edit(ast)
+    if charge:
+        # acceptance of rules with formal-charge edits is not judged (the
+        # balance clause speaks of bond and radical edits); what an accepted
+        # one does to the molecule is.
+        if 'exc' in o:
+            ctx.count('charge_rules_refused_by_reader (%s)' % o['exc'])
+            return
+        ctx.count('charge_rules_read')
+    elif not balanced:
         if 'ok' in o:
             ctx.violation('rule with unbalanced electrons accepted', case,
                           {'balance_per_label': bal})
@@ -118,9 +150,12 @@ def check_rule(ctx, ast, rng):
     if type(q).__name__ != 'ReactionQuery':
         ctx.violation('Read(rule) returned a %s' % type(q).__name__, case, {})
         return
-    ctx.count('balanced_rules_read')
+    if not charge:
+        ctx.count('balanced_rules_read')
     pool = mol_pool(ctx.tier)
     mols = rng.sample(pool, min(len(pool), 14 if ctx.tier == 'quick' else 40))
+    if charge:
+        mols = mols[:8] + charged_pool()
     for smi, mol, facts in mols:
         embs, _ = R.search(ast['reactant'], facts)
         c = dict(case, smiles=smi)
@@ -177,6 +212,8 @@ def check_rule(ctx, ast, rng):
                 return
             del rest[hit]
         ctx.count('product_sets_compared', len(got))
+        if charge:
+            ctx.count('charge_edit_product_sets_compared', len(got))
         ctx.nontrivial([text, smi])
         ctx.klass('template: ' + ast['desc'])
         if ctx.rng.random() < 0.004:
@@ -190,6 +227,13 @@ def run_shard(ctx):
     r = ctx.sub_rng('c16', ctx.shard)
     n = 500 if ctx.tier == 'quick' else 4000
     T = X.templates() + X.systematic_templates()
+    CT = X.charge_templates()
+    for k, (desc, atoms, bonds, edits) in enumerate(CT):
+        if ctx.mine(k):
+            check_rule(ctx, {'name': 'q%d' % k, 'desc': desc,
+                             'kind': 'charge', 'reactant': X.frag(atoms,
+                                                                  bonds),
+                             'edits': list(edits)}, r)
     for k in range(n):
         ast = X.gen_rule(r, unbalanced=(k % 3 == 2))
         if k < len(T) and ast['kind'] == 'balanced':
@@ -212,9 +256,11 @@ def replay(ctx, case):
         print('products:', [[Chem.MolToSmiles(p) for p in ps]
                             for ps in prods])
     # full semantic replay needs the AST: regenerate by template name
-    for desc, atoms, bonds, edits in X.templates() + X.systematic_templates():
-        if desc == case.get('template') and case.get('kind') == 'balanced':
-            ast = {'name': 'r', 'desc': desc, 'kind': 'balanced',
+    for desc, atoms, bonds, edits in X.templates() + \
+            X.systematic_templates() + X.charge_templates():
+        if desc == case.get('template') and case.get('kind') in (
+                'balanced', 'charge'):
+            ast = {'name': 'r', 'desc': desc, 'kind': case['kind'],
                    'reactant': X.frag(atoms, bonds), 'edits': list(edits)}
             check_rule(ctx, ast, ctx.rng)
 
